@@ -405,14 +405,15 @@ class Exec(ExecBase):
         R = z3.Const(fresh_name("cat"), A.sort())
         i = z3.Int(fresh_name("ci"))
         # pattern-annotated definition of the concatenation (triggers on reads of R, of A and of B)
-        st = st.assume(z3.ForAll([i], z3.Implies(z3.And(i >= 0, i < la), z3.Select(R, i) == z3.Select(A, i)),
-                                 patterns=[z3.Select(R, i)]),
-                       z3.ForAll([i], z3.Implies(z3.And(i >= 0, i < la), z3.Select(R, i) == z3.Select(A, i)),
-                                 patterns=[z3.Select(A, i)]),
-                       z3.ForAll([i], z3.Implies(z3.And(i >= 0, i < lb), z3.Select(R, i + la) == z3.Select(B, i)),
-                                 patterns=[z3.Select(B, i)]),
-                       z3.ForAll([i], z3.Implies(z3.And(i >= la, i < la + lb), z3.Select(R, i) == z3.Select(B, i - la)),
-                                 patterns=[z3.Select(R, i)]),
+        def fa(body: Any, pat: Any) -> Any:
+            try:
+                return z3.ForAll([i], body, patterns=[pat])
+            except z3.Z3Exception:      # reads of stored / lambda arrays are not valid patterns
+                return z3.ForAll([i], body)
+        st = st.assume(fa(z3.Implies(z3.And(i >= 0, i < la), z3.Select(R, i) == z3.Select(A, i)), z3.Select(R, i)),
+                       fa(z3.Implies(z3.And(i >= 0, i < la), z3.Select(R, i) == z3.Select(A, i)), z3.Select(A, i)),
+                       fa(z3.Implies(z3.And(i >= 0, i < lb), z3.Select(R, i + la) == z3.Select(B, i)), z3.Select(B, i)),
+                       fa(z3.Implies(z3.And(i >= la, i < la + lb), z3.Select(R, i) == z3.Select(B, i - la)), z3.Select(R, i)),
                        la >= 0, lb >= 0)
         st = st.hset("L.len", z3.Store(self._len_arr(st), ref, la + lb))
         st = st.hset(key, z3.Store(el, ref, R))
@@ -542,12 +543,20 @@ class Exec(ExecBase):
             n = self.list_len(base, st).term
             lo: Any = z3.IntVal(0)
             hi: Any = n
+            def bound(e: ast.AST) -> Any:
+                outs = list(self.ev(e, st))
+                if len(outs) != 1:
+                    raise Unsupported("slice bound forks")
+                bv = self.narrow(outs[0][0], st)
+                if self.is_concrete(bv):
+                    v_ = self.concrete(bv)
+                    return z3.If(n < v_, n, z3.IntVal(v_)) if v_ >= 0 else z3.If(n + v_ < 0, z3.IntVal(0), n + v_)
+                b = _i(bv)      # Python's rule: a negative bound counts from the end; both are clipped to [0, n]
+                return z3.If(b < 0, z3.If(n + b < 0, z3.IntVal(0), n + b), z3.If(n < b, n, b))
             if sl.lower is not None:
-                lv = self.concrete(next(self.ev(sl.lower, st))[0])
-                lo = z3.If(n < lv, n, z3.IntVal(lv)) if lv >= 0 else z3.If(n + lv < 0, z3.IntVal(0), n + lv)
+                lo = bound(sl.lower)
             if sl.upper is not None:
-                uv = self.concrete(next(self.ev(sl.upper, st))[0])
-                hi = z3.If(n < uv, n, z3.IntVal(uv)) if uv >= 0 else z3.If(n + uv < 0, z3.IntVal(0), n + uv)
+                hi = bound(sl.upper)
             ref, st = self.alloc(st)
             key, el = self._elem_arr(st, base.elem)
             i = z3.Int(fresh_name("si"))
@@ -705,6 +714,41 @@ class Exec(ExecBase):
         return top
 
     # comprehensions ------------------------------------------------------------------------------
+    def _fresh_object_comprehension(self, node: Any, gen: Any, st: State, kind: str) -> Optional[List[Tuple[V, State]]]:
+        """`[C() for _ in range(m)]` with a symbolic m, C a repository class without __init__ and without arguments: a new
+        list of max(m, 0) pairwise different fresh objects of class C"""
+        if kind != "list" or gen.ifs or not (isinstance(gen.iter, ast.Call) and isinstance(gen.iter.func, ast.Name)
+                                            and gen.iter.func.id == "range" and len(gen.iter.args) == 1 and not gen.iter.keywords):
+            return None
+        if not (isinstance(node.elt, ast.Call) and isinstance(node.elt.func, ast.Name) and not node.elt.args and not node.elt.keywords
+                and isinstance(gen.target, ast.Name)):
+            return None
+        cls = self.resolve_name(node.elt.func.id, st) if hasattr(self, "resolve_name") else st.fi.globals.get(node.elt.func.id)
+        if not (is_tealer_class(cls) and all("__init__" not in vars(k) for k in cls.__mro__ if is_tealer_class(k))):
+            return None
+        outs = list(self.ev(gen.iter.args[0], st))
+        if len(outs) != 1:
+            return None
+        mval, st1 = outs[0]
+        mval = self.narrow(mval, st1)
+        if self.is_concrete(mval):
+            return None                     # a concrete range is unrolled by the general rule
+        m = _i(mval)
+        n = z3.If(m > 0, m, z3.IntVal(0))
+        lref, st1 = self.alloc(st1)
+        base = st1.alloc_ptr()
+        st1 = st1.copy()
+        st1.abase = base + n                # the n fresh objects occupy [base, base + n)
+        st1.nalloc = 0
+        j = z3.Int(fresh_name("fj"))
+        lo = self.ct.lo[cls]
+        st1 = st1.assume(z3.ForAll([j], z3.Implies(z3.And(j >= 0, j < n), TYPEOF(base + j) == lo), patterns=[TYPEOF(base + j)]))
+        ety = T.Ref(cls)
+        key, el = self._elem_arr(st1, ety)
+        st1 = st1.hset("L.len", z3.Store(self._len_arr(st1), lref, n))
+        st1 = st1.hset(key, z3.Store(el, lref, z3.Lambda([j], base + j)))
+        return [(VList(ety, "seq", lref), st1)]
+
     def ev_ListComp(self, node: ast.ListComp, st: State) -> Iterator[Tuple[V, State]]:
         yield from self.comprehension(node, st, "list")
 
@@ -718,6 +762,10 @@ class Exec(ExecBase):
         if len(node.generators) != 1:
             raise Unsupported("nested comprehension")
         gen = node.generators[0]
+        fresh = self._fresh_object_comprehension(node, gen, st, kind)
+        if fresh is not None:
+            yield from fresh
+            return
         for it, st1 in self.ev(gen.iter, st):
             items = self.concrete_items(it, st1)
             if items is not None:
@@ -1124,6 +1172,11 @@ class Exec(ExecBase):
     def retype_empty(self, v: V, name: str, annotation: Optional[ast.AST], st: State) -> V:
         """an empty list/dict literal takes the element types declared for the variable (contract `local_types`, else the
         annotation in the source)"""
+        if isinstance(v, VList) and not getattr(v, "untyped", False) and annotation is not None and v.elem.kind == "ref":
+            ty = ty_from_ast(annotation, st.fi.globals)
+            if ty is not None and ty.kind == "list" and ty.elem.kind == "refu" and any(
+                    issubclass(v.elem.cls, self.ct.cls(n) if isinstance(n, str) else n) for n in ty.elem.classes):
+                return VList(ty.elem, v.view, v.ref)    # a list of C seen as a list of (C | ...): same addresses
         if not isinstance(v, (VList, VDict)) or not getattr(v, "untyped", False):
             return v
         ty = None
